@@ -519,6 +519,26 @@ class SetAlg:
             return ("comp", t[1], self.canon(t[2]), gens)
         if h in ("in", "not", "and", "or", "truth", "subset", "disjoint"):
             return self._canon_cond(t)
+        if h == "ite":
+            # a chain of conditionals is a case distinction: the set of (full guard, value) pairs, independent of the order of the tests
+            cases = []
+            neg = []
+            cur = t
+            while cur[0] == "ite":
+                c = self.cond(cur[1])
+                cases.append((f_and(*neg, c), cur[2]))
+                neg.append(f_not(c))
+                cur = cur[3]
+            cases.append((f_and(*neg), cur))
+            out = []
+            for g, v in cases:
+                if g is False:
+                    continue
+                out.append((("COND", formula_key(g)), self.canon(v)))
+            # merge cases with equal values
+            if len({v for _, v in out}) == 1:
+                return out[0][1]
+            return ("cases", tuple(sorted(out, key=lambda x: repr(alpha_normalise(x)))))
         return (h,) + tuple(self.canon(x) for x in t[1:])
 
     def _strip_iter(self, t: Term) -> Term:
